@@ -179,7 +179,14 @@ func (d *DBFT[H]) OnTransaction(tx Transaction[H]) {
 	if i < 0 {
 		return
 	}
+	height, view := d.BlockIndex, d.ViewNumber
 	d.addTransaction(tx)
+	// `addTransaction` can change view (block verification failure) and start
+	// processing of a new proposal with its own list of missing transactions,
+	// index i is meaningless for it.
+	if d.BlockIndex != height || d.ViewNumber != view {
+		return
+	}
 	// `addTransaction` checks for responses and commits. If this was the last transaction
 	// Context could be initialized on a new height, clearing this field.
 	if len(d.MissingTransactions) == 0 {
